@@ -156,6 +156,25 @@ def cases(ctx):
                     gate_on_q0(), gate_on_q0(), ["h", [["Q", 1]]]]
         yield {"kind": "direct", "nq": nq, "seed_prog": seed, "prog": prog, "debug": rng.random() < 0.3, "load": False, "seam": True,
                "loaded_two_qubit": False, "script": [rng.randrange(2) for _ in range(8)]}
+    if ctx.shard == 0:
+        # the same seam, enumerated: every ordered pair of these gates on one register, as loop head and as landing point
+        G = [["h", [["Q", 0]]], ["x", [["Q", 0]]], ["k", [["Q", 0]]], ["s", [["Q", 0]]], ["cnot", [["Q", 1], ["Q", 0]]], ["cnot", [["Q", 0], ["Q", 1]]],
+             ["cphase", [["Q", 1], ["Q", 0]]]]
+        for a, b2 in ((0, 1), (1, 0), (1, 2)):
+            nq = 3
+            seed = []
+            for v in range(nq):
+                seed += [["set", [["Q", 0], v]], ["qalloc", [["Q", 0]]], ["init", [["Q", 0]]], ["set", [["Q", 0], v]], [["h", "k", "t"][v], [["Q", 0]]]]
+            seed += [["set", [["R", 0], 0]], ["set", [["C", 0], 2]], ["set", [["C", 10], 1]]]
+            for g1 in G:
+                for g2 in G:
+                    loop = [["set", [["Q", 0], a]], ["set", [["Q", 1], b2]], copy.deepcopy(g1), copy.deepcopy(g2), ["add", [["R", 0], ["R", 0], ["C", 10]]],
+                            ["blt", [["R", 0], ["C", 0], 3]]]
+                    fwd = [["set", [["Q", 0], a]], ["set", [["Q", 1], b2]], ["set", [["R", 1], 0]], ["bez", [["R", 1], 5]], copy.deepcopy(g1), copy.deepcopy(g2),
+                           ["h", [["Q", 1]]]]
+                    for prog in (loop, fwd):
+                        yield {"kind": "direct", "nq": nq, "seed_prog": seed, "prog": prog, "debug": False, "load": False, "seam": True,
+                               "loaded_two_qubit": False, "script": [0] * 8}
     for _ in range(ctx.n(20, 1500)):
         # a program that names all sixteen Q registers and has a carbon-carbon gate inside a loop: nothing is left to borrow for the
         # electron - the transpiler may refuse, it may not quietly take a register that is read again after the back-edge
